@@ -3,9 +3,11 @@ package main
 // C10 — workspace dependency resolution is exact and ambiguity is an error (structural part).
 
 import (
+	"fmt"
 	"go/ast"
 	"go/token"
 	"go/types"
+	"golang.org/x/tools/go/ssa"
 	"strings"
 
 	"golang.org/x/tools/go/packages"
@@ -375,7 +377,7 @@ func runC10(c *Ctx) {
 
 	// (6) ls-files closure
 	if pkI := p.Pkg("private/bufpkg/bufimage"); pkI != nil {
-		if fr := p.Func("private/bufpkg/bufimage", "imageFileInfosWithOnlyTargetsAndTargetImportsRec"); fr != nil {
+		if fr := c10LsClosureRec(p); fr != nil {
 			iinfo := fr.Info()
 			g := p.CFGOf(fr.Decl.Body, iinfo)
 			var selfCalls []ast.Node
@@ -413,25 +415,36 @@ func runC10(c *Ctx) {
 					ok = false
 				}
 			}
-			c.Ob("LSFILES-CLOSURE", "imageFileInfosWithOnlyTargetsAndTargetImportsRec/mark-before-recursion", fr.Decl.Pos(), ok, true, "seen test and mark dominate the recursion over imports: %v", ok)
+			c.Ob("LSFILES-CLOSURE", "ls-closure-rec/mark-before-recursion", fr.Decl.Pos(), ok, true, "in %s the seen test and mark dominate the recursion over imports: %v", fr.Decl.Name.Name, ok)
 		} else {
-			c.Fail("LSFILES-CLOSURE", "imageFileInfosWithOnlyTargetsAndTargetImportsRec", token.NoPos, "not found")
+			c.Fail("LSFILES-CLOSURE", "ls-closure-rec", token.NoPos, "the recursive closure helper called by ImageFileInfosWithOnlyTargetsAndTargetImports was not found")
 		}
 		if fr := p.Func("private/bufpkg/bufimage", "ImageFileInfosWithOnlyTargetsAndTargetImports"); fr != nil {
 			iinfo := fr.Info()
 			startsFromTargets, sorted := false, false
-			ast.Inspect(fr.Decl.Body, func(n ast.Node) bool {
-				switch x := n.(type) {
-				case *ast.IfStmt:
-					if strings.HasSuffix(exprString(x.Cond), "IsImport()") {
-						for _, st := range x.Body.List {
-							if b, ok := st.(*ast.BranchStmt); ok && b.Tok == token.CONTINUE {
-								startsFromTargets = true
+			// the closure is started only on the false edge of IsImport() (continue-guard or nested form alike)
+			if rec := c10LsClosureRec(p); rec != nil && fr.Obj != nil {
+				if sf := p.SSAFunc(fr.Obj); sf != nil {
+					nCalls, nGuarded := 0, 0
+					for _, call := range callsIn(sf) {
+						if staticCalleeObj(call.Call) != rec.Obj {
+							continue
+						}
+						nCalls++
+						for _, ge := range guardingEdges(call.Instr.Block()) {
+							cv, pos := condPolarity(ge.If.Cond)
+							if cc, ok := cv.(*ssa.Call); ok && cc.Call.IsInvoke() && cc.Call.Method.Name() == "IsImport" && ge.Branch != pos {
+								nGuarded++
+								break
 							}
 						}
 					}
-				case *ast.CallExpr:
-					if fn := Callee(iinfo, x); fn != nil && fn.Pkg() != nil && fn.Pkg().Path() == "sort" {
+					startsFromTargets = nCalls > 0 && nCalls == nGuarded
+				}
+			}
+			ast.Inspect(fr.Decl.Body, func(n ast.Node) bool {
+				if x, ok := n.(*ast.CallExpr); ok {
+					if fn := Callee(iinfo, x); fn != nil && callSorts(p, fn, 1) {
 						sorted = true
 					}
 				}
@@ -451,56 +464,193 @@ func runC10(c *Ctx) {
 func c10WktNarrow(c *Ctx, rule string) {
 	p := c.P
 	rec := p.Func("private/bufpkg/bufmodule", "getModuleDepsRec")
-	if rec == nil {
+	if rec == nil || rec.Obj == nil {
 		c.Fail(rule, "getModuleDepsRec", token.NoPos, "not found")
 		return
 	}
-	info := rec.Info()
-	okWkt := false
-	ast.Inspect(rec.Decl.Body, func(n ast.Node) bool {
-		ifs, ok := n.(*ast.IfStmt)
-		if !ok || !strings.Contains(exprString(ifs.Cond), "datawkt.Exists") {
-			return true
+	sf := p.SSAFunc(rec.Obj)
+	if sf == nil {
+		c.Fail(rule, "getModuleDepsRec", token.NoPos, "no SSA")
+		return
+	}
+	// Decided on SSA, across the helpers getModuleDepsRec calls: the error of the module lookup for an import
+	// (ModuleSet.getModuleForFilePath, or of a helper wrapping it) may be *swallowed* - control leaves the err != nil
+	// region without returning a non-nil error: a `continue`, or a `return …, nil` in a helper - only on the true edges
+	// of errors.Is(err, fs.ErrNotExist) and datawkt.Exists(path); and datawkt.Exists is consulted nowhere else (a
+	// shortcut taken before the lookup would drop a module that does provide the path).
+	reach := reachSSA(sf, 2)
+	inReach := map[*ssa.Function]bool{}
+	for _, f := range reach {
+		inReach[f] = true
+	}
+	lastExtract := func(call *ssa.Call) ssa.Value {
+		tup, ok := call.Type().(*types.Tuple)
+		if !ok {
+			return nil
 		}
-		for _, st := range ifs.Body.List {
-			if b, ok := st.(*ast.BranchStmt); ok && b.Tok == token.CONTINUE {
-				// must lie under errors.Is(err, fs.ErrNotExist)
-				for cur := p.Parent(ifs); cur != nil && cur != rec.Decl; cur = p.Parent(cur) {
-					if outer, ok := cur.(*ast.IfStmt); ok && strings.Contains(exprString(outer.Cond), "ErrNotExist") {
-						okWkt = true
+		for _, r := range *call.Referrers() {
+			if ex, ok := r.(*ssa.Extract); ok && ex.Index == tup.Len()-1 {
+				return ex
+			}
+		}
+		return nil
+	}
+	// the function holding the lookup, then the functions calling that one
+	errVals := map[*ssa.Function][]ssa.Value{}
+	wrappers := map[*ssa.Function]bool{}
+	lookups := 0
+	for _, f := range reach {
+		for _, call := range callsIn(f) {
+			if call.Call.IsInvoke() && call.Call.Method.Name() == "getModuleForFilePath" {
+				if cv, ok := call.Value.(*ssa.Call); ok {
+					if ev := lastExtract(cv); ev != nil {
+						errVals[f] = append(errVals[f], ev)
+						lookups++
+						if f != sf && f.Parent() == nil {
+							wrappers[f] = true
+						}
 					}
 				}
 			}
 		}
-		return true
-	})
-	// and no other `continue` on an error edge
-	otherContinue := false
-	ast.Inspect(rec.Decl.Body, func(n ast.Node) bool {
-		b, ok := n.(*ast.BranchStmt)
-		if !ok || b.Tok != token.CONTINUE {
-			return true
-		}
-		underErr, underWkt := false, false
-		for cur := p.Parent(b); cur != nil && cur != rec.Decl; cur = p.Parent(cur) {
-			if ifs, ok := cur.(*ast.IfStmt); ok && containsNode(ifs.Body, b) {
-				if nonNilErrTested(info, ifs.Cond) != nil {
-					underErr = true
-				}
-				if strings.Contains(exprString(ifs.Cond), "datawkt.Exists") {
-					underWkt = true
+	}
+	for _, f := range reach {
+		for _, call := range callsIn(f) {
+			if callee := call.Call.StaticCallee(); callee != nil && wrappers[callee] {
+				if cv, ok := call.Value.(*ssa.Call); ok {
+					if ev := lastExtract(cv); ev != nil && isErrorType(ev.Type()) {
+						errVals[f] = append(errVals[f], ev)
+					}
 				}
 			}
 		}
-		if underErr && !underWkt {
-			otherContinue = true
+	}
+	if lookups == 0 {
+		c.Fail(rule, "getModuleDepsRec/lookup", rec.Decl.Pos(), "no ModuleSet.getModuleForFilePath call reachable from getModuleDepsRec")
+		return
+	}
+	okSwallows, badSwallows := 0, []string{}
+	for f, evs := range errVals {
+		for _, ev := range evs {
+			onErr := func(b *ssa.BasicBlock) bool {
+				for _, ge := range guardingEdges(b) {
+					x, trueIsNonNil, ok := nilCompare(ge.If.Cond)
+					if ok && stripConv(x) == ev && ge.Branch == trueIsNonNil {
+						return true
+					}
+				}
+				return false
+			}
+			narrow := func(guards []guardEdge) bool {
+				notExist, wkt := false, false
+				for _, ge := range guards {
+					cv, pos := condPolarity(ge.If.Cond)
+					call, ok := cv.(*ssa.Call)
+					if !ok || ge.Branch != pos {
+						continue
+					}
+					fn := staticCalleeObj(&call.Call)
+					switch {
+					case calleeIs(fn, "errors", "Is") && len(call.Call.Args) == 2 && stripConv(call.Call.Args[0]) == ev && isGlobalNamed(call.Call.Args[1], "ErrNotExist"):
+						notExist = true
+					case fn != nil && fn.Pkg() != nil && strings.HasSuffix(fn.Pkg().Path(), "/datawkt") && fn.Name() == "Exists":
+						wkt = true
+					}
+				}
+				return notExist && wkt
+			}
+			for _, b := range f.Blocks {
+				if !onErr(b) || len(b.Instrs) == 0 {
+					continue
+				}
+				// each way control leaves the region without a non-nil error, with the edges guarding it (the builder
+				// threads an empty `continue` block into the If before it, so the If's own edge counts)
+				var swallows [][]guardEdge
+				switch last := b.Instrs[len(b.Instrs)-1].(type) {
+				case *ssa.Return:
+					if n := len(last.Results); n > 0 && isErrorType(last.Results[n-1].Type()) && isNilConst(last.Results[n-1]) {
+						swallows = append(swallows, guardingEdges(b))
+					}
+				case *ssa.Jump:
+					if !onErr(b.Succs[0]) {
+						swallows = append(swallows, guardingEdges(b))
+					}
+				case *ssa.If:
+					for i, succ := range b.Succs {
+						if !onErr(succ) {
+							swallows = append(swallows, append(guardingEdges(b), guardEdge{last, i == 0}))
+						}
+					}
+				}
+				for _, g := range swallows {
+					if narrow(g) {
+						okSwallows++
+					} else {
+						badSwallows = append(badSwallows, ssaFuncName(f)+" block "+fmt.Sprint(b.Index))
+					}
+				}
+			}
 		}
-		// a well-known-type shortcut that is not under the not-exist error at all: it skips the module lookup, so a
-		// module that *does* provide the path stops being a dependency
-		if underWkt && !underErr {
-			otherContinue = true
+	}
+	// datawkt.Exists is consulted only inside a lookup-error region
+	strayWkt := []string{}
+	for _, f := range reach {
+		for _, call := range callsIn(f) {
+			fn := staticCalleeObj(call.Call)
+			if fn == nil || fn.Pkg() == nil || !strings.HasSuffix(fn.Pkg().Path(), "/datawkt") || fn.Name() != "Exists" {
+				continue
+			}
+			inRegion := false
+			for _, ev := range errVals[f] {
+				for _, ge := range guardingEdges(call.Instr.Block()) {
+					x, trueIsNonNil, ok := nilCompare(ge.If.Cond)
+					if ok && stripConv(x) == ev && ge.Branch == trueIsNonNil {
+						inRegion = true
+					}
+				}
+			}
+			if !inRegion {
+				strayWkt = append(strayWkt, ssaFuncName(f))
+			}
+		}
+	}
+	ok := okSwallows >= 1 && len(badSwallows) == 0 && len(strayWkt) == 0
+	c.Ob(rule, "getModuleDepsRec/continue-only-for-wkt", rec.Decl.Pos(), ok, true, "the import-lookup error is swallowed only on the true edges of errors.Is(err, fs.ErrNotExist) and datawkt.Exists(path) (%d such site(s)); other swallow sites: %v; datawkt.Exists consulted outside the lookup-error region: %v", okSwallows, badSwallows, strayWkt)
+}
+
+// c10LsClosureRec finds the recursive helper behind ImageFileInfosWithOnlyTargetsAndTargetImports (whatever it is
+// called): a self-recursive function of package bufimage that the exported entry point calls.
+func c10LsClosureRec(p *Prog) *FuncRef {
+	entry := p.Func("private/bufpkg/bufimage", "ImageFileInfosWithOnlyTargetsAndTargetImports")
+	if entry == nil || entry.Decl.Body == nil {
+		return nil
+	}
+	info := entry.Info()
+	var found *FuncRef
+	ast.Inspect(entry.Decl.Body, func(n ast.Node) bool {
+		call, ok := n.(*ast.CallExpr)
+		if !ok || found != nil {
+			return true
+		}
+		fn := Callee(info, call)
+		if fn == nil || fn.Pkg() == nil || fn.Pkg() != entry.Pkg.Types {
+			return true
+		}
+		fr := p.DeclOf(fn)
+		if fr == nil || fr.Decl.Body == nil {
+			return true
+		}
+		self := false
+		ast.Inspect(fr.Decl.Body, func(m ast.Node) bool {
+			if c2, ok := m.(*ast.CallExpr); ok && Callee(fr.Info(), c2) == fr.Obj {
+				self = true
+			}
+			return true
+		})
+		if self {
+			found = fr
 		}
 		return true
 	})
-	c.Ob(rule, "getModuleDepsRec/continue-only-for-wkt", rec.Decl.Pos(), okWkt && !otherContinue, true, "the only `continue` on an error edge is under errors.Is(err, fs.ErrNotExist) && datawkt.Exists(path): %v", okWkt && !otherContinue)
+	return found
 }
